@@ -54,6 +54,10 @@ type stage struct {
 	Pat  int    `json:"pat,omitempty"` // interleaving pattern of a source
 	Fail int    `json:"fail,omitempty"`
 	NoEOL bool  `json:"no_eol,omitempty"` // the last byte line has no terminator
+	// byte line number LongAt-1 of a source is LongLen bytes long (longer than
+	// any buffer a line reader may use)
+	LongAt  int `json:"long_at,omitempty"`
+	LongLen int `json:"long_len,omitempty"`
 	Tag  string `json:"tag,omitempty"`
 	Text string `json:"text"`
 	// model results
@@ -125,6 +129,10 @@ func genC18(c *Ctx) *c18case {
 			}
 			if w.Chance(1, 6) {
 				st.Fail = 1 + w.Draw(st.N+st.M+1)
+			}
+			if st.M > 0 && w.Chance(1, 8) {
+				st.LongAt = 1 + w.Draw(st.M)
+				st.LongLen = []int{5000, 70000, 200000}[w.Draw(3)]
 			}
 			st.Text = fmt.Sprintf("vsrc %d", 0)
 		case 3:
@@ -253,14 +261,12 @@ func modelC18(sts []*stage, i int) bool {
 		p := sts[0]
 		switch p.Kind {
 		case "src":
-			n, m := p.N, p.M
+			// emits items in pattern order (and fails after Fail items)
+			vs, bs := srcPlan(p)
 			if p.Fail > 0 {
-				// emits items in pattern order and fails after Fail items
-				vs, bs := srcPlan(p)
-				n, m = len(vs), len(bs)
 				p.outcome = p.Tag
 			}
-			p.out = stream{band{seqOf(p.Tag+"v", n)}.nonEmpty(), band{seqOf(p.Tag+"b", m)}.nonEmpty()}
+			p.out = stream{band{vs}.nonEmpty(), band{bs}.nonEmpty()}
 		case "range", "putall":
 			p.out = stream{v: band{seqOf("", p.N)}.nonEmpty()}
 		case "echoes":
@@ -391,7 +397,11 @@ func srcOrder(p *stage) []srcItem {
 	}
 	emitB := func(k int) {
 		for ; k > 0 && bi < p.M; k-- {
-			items = append(items, srcItem{false, p.Tag + "b" + strconv.Itoa(bi)})
+			l := p.Tag + "b" + strconv.Itoa(bi)
+			if p.LongAt == bi+1 && p.LongLen > len(l) {
+				l += strings.Repeat("x", p.LongLen-len(l))
+			}
+			items = append(items, srcItem{false, l})
 			bi++
 		}
 	}
